@@ -51,10 +51,9 @@
 (*    while a participant key is physically down;                             *)
 (*  - a chord re-activated while its output key is still down cannot be seen  *)
 (*    at the OS level: presses that may have been consumed that way (`hid`)   *)
-(*    are not claimed; with a key+unicode action the character shows it;      *)
-(*  - failure messages carry a [site] suffix where the observation matches    *)
-(*    one of the recorded defects of chord.rs (known_findings.json), so that   *)
-(*    any other failure of the same rule is still reported as a violation.     *)
+(*    are not claimed; with a key+unicode action the character shows it.      *)
+(* All rules hold unconditionally: the four defects of chord.rs this check   *)
+(* found are repaired (6c7bac1, e173bdb, 6fd250f, deba873).                  *)
 (***************************************************************************)
 EXTENDS Obs
 
@@ -68,7 +67,6 @@ ChordOfOut(p, o) == FirstIdx(p.chords, LAMBDA ch : ch.o = o /\ o # 0)
 ChordOfUni(p, u) == FirstIdx(p.chords, LAMBDA ch : ch.u = u /\ u # "")
 IsPart(p, c) == InSeq(p.part, c)
 EnabledOn(ch, lay) == ~InSeq(ch.dis, lay)
-MaxT(p) == LET S == {p.chords[i].T : i \in DOMAIN p.chords} \cup {p.T} IN CHOOSE t \in S : \A u \in S : t >= u
 
 \* the action the table defines for exactly the set G on layer lay: <<>> or <<[o, u, ci]>>
 DefAct(p, G, lay) ==
@@ -93,10 +91,10 @@ Decomp(p, g) ==
 
 MonInit(p) ==
   [p |-> p,
-   pend |-> <<>>,     \* presses not yet accounted for, in arrival order: [c, xr, ly, sk, age, hid]
+   pend |-> <<>>,     \* presses not yet accounted for, in arrival order: [c, xr, ly, sk, hid]
                       \*   xr = keys released (input) since this press arrived; ly = layer it was made on (-1 unknown);
                       \*   sk = a later press was delivered before it; hid = chord that may have consumed it unseen
-   acts |-> <<>>,     \* chord actions currently held: [ci, rem, all, chk, due, useen, frl]
+   acts |-> <<>>,     \* chord actions currently held: [ci, rem, all, chk, due, useen]
    gst |-> "none",    \* sharp group: "none" | "open"
    g |-> <<>>,        \* its presses in arrival order
    el |-> 0,          \* ticks since its first press arrived
@@ -105,11 +103,9 @@ MonInit(p) ==
    exp |-> <<>>,      \* expected activations of the resolved group, in order
    expLeft |-> 0 - 1, \* ticks left for the first of them (-1: no claim)
    expDef |-> FALSE,  \* the expectation is the whole set's own action
-   last |-> [ci |-> 0, viaRel |-> FALSE, late |-> FALSE, age |-> 0],   \* (= NoLast) the latest chord activation (to classify a repeat)
    phys |-> {},       \* keys physically down (from the inputs)
    lay |-> 0, lheld |-> FALSE,
    gapIn |-> 0, lastIdle |-> TRUE, cbRun |-> 2, quiet |-> p.red + 1, err |-> ""]
-NoLast == [ci |-> 0, viaRel |-> FALSE, late |-> FALSE, age |-> 0]
 
 Settled(m) ==
   /\ m.lastIdle /\ m.quiet > m.p.red /\ m.pend = <<>> /\ m.gapIn = 0 /\ m.exp = <<>> /\ m.gst = "none"
@@ -133,7 +129,7 @@ MonIn(m, r) ==
                     !.pend = [i \in DOMAIN @ |-> [@[i] EXCEPT !.ly = 0 - 1]],
                     !.gst = "none", !.g = <<>>]
     ELSE IF r.e = "d"
-    THEN LET m1 == [m0 EXCEPT !.pend = Append(@, [c |-> c, xr |-> {}, ly |-> m.lay, sk |-> FALSE, age |-> 0, hid |-> 0])]
+    THEN LET m1 == [m0 EXCEPT !.pend = Append(@, [c |-> c, xr |-> {}, ly |-> m.lay, sk |-> FALSE, hid |-> 0])]
          IN IF m.gst = "none"
             THEN IF Settled(m) /\ IsPart(p, c) /\ m.lay >= 0 /\ (p.ver = 1 \/ CanExtend(p, {c}, m.lay))
                  THEN [m1 EXCEPT !.gst = "open", !.g = <<c>>, !.el = 0, !.term = "none", !.arr = TRUE]
@@ -172,54 +168,40 @@ ActivateChord(m, ci) ==
       missing == \E k \in S : idx(k) = 0
       I == {idx(k) : k \in S}
       lys == {m.pend[i].ly : i \in I}
-      ages == {m.pend[i].age : i \in I}
       oldest == CHOOSE i \in I : \A j \in I : i <= j
       xr0 == m.pend[oldest].xr \cap S          \* participants released since the set's first press arrived
-      viaRel == xr0 # {}
-      late == \E a \in ages : a >= ch.T
       fromExp == m.exp # <<>>
       keep == SelectSeq([i \in DOMAIN m.pend |-> [e |-> m.pend[i], i |-> i]], LAMBDA x : x.i \notin I)
       pend1 == [i \in DOMAIN keep |-> keep[i].e]
       rem == S \ xr0
   IN IF missing
-     THEN IF m.last.ci = ci /\ m.last.viaRel
-          THEN Fail(m, "C09 H1: chord action performed twice for one set of presses [a participant was released before the chord fired]")
-          ELSE IF m.last.ci = ci /\ m.last.late
-          THEN Fail(m, "C09 H1: chord action performed twice for one set of presses [the last participant arrived at the end of the window]")
-          ELSE Fail(m, "C09 H1: chord action performed without a fresh press of each of its keys")
+     THEN Fail(m, "C09 H1: chord action performed without a fresh press of each of its keys (or twice for one set of presses)")
      ELSE IF \E L \in SeqToSet(ch.dis) : lys = {L}
      THEN Fail(m, "C09 H5: chord fired from presses made on a layer it is disabled on")
      ELSE IF ~ExpOk(m, ch.o, ch.u)
      THEN Fail(m, "C09 H1/H2: wrong outcome for the pressed key set (another chord than the one defined for the set)")
-     ELSE LET m1 == PopExp([m EXCEPT !.pend = pend1, !.last = [ci |-> ci, viaRel |-> viaRel, late |-> late, age |-> 0]]) IN
+     ELSE LET m1 == PopExp([m EXCEPT !.pend = pend1]) IN
           IF ch.o = 0 THEN m1
           ELSE [m1 EXCEPT !.acts = Append(@, [ci |-> ci, rem |-> rem, all |-> S,
                                              chk |-> (p.ver = 2 \/ (fromExp /\ m.expDef)), due |-> 0,
-                                             useen |-> FALSE, frl |-> (m.pend[oldest].xr \ S) # {}])]
+                                             useen |-> FALSE])]
 
 \* a chord whose action is a key and a unicode character: the key shows how long the action is held, the character
 \* shows every performance (a second activation while the key is down does not press the key again)
 UniOfKeyChord(m, ci) ==
   LET j == FirstIdx(m.acts, LAMBDA a : a.ci = ci /\ ~a.useen)
       S == KS(m.p.chords[ci])
-      \* the second of the two activations of the known double-activation sites is read one tick after the first
-      dbl == m.last.ci = ci /\ m.last.age <= 1 /\ (m.last.viaRel \/ m.last.late)
   IN IF j # 0 THEN [m EXCEPT !.acts[j].useen = TRUE]
-     ELSE IF ~dbl /\ \A k \in S : PickIdx(m.pend, k) # 0
+     ELSE IF \A k \in S : PickIdx(m.pend, k) # 0
      THEN \* a further activation for fresh presses while the key is still down
           LET I == {PickIdx(m.pend, k) : k \in S}
               oldest == CHOOSE i \in I : \A i2 \in I : i <= i2
               xr0 == m.pend[oldest].xr \cap S
               keep == SelectSeq([i \in DOMAIN m.pend |-> [e |-> m.pend[i], i |-> i]], LAMBDA x : x.i \notin I)
               a0 == FirstIdx(m.acts, LAMBDA a : a.ci = ci)
-              m1 == [m EXCEPT !.pend = [i \in DOMAIN keep |-> keep[i].e],
-                              !.last = [ci |-> ci, viaRel |-> xr0 # {}, late |-> \E i \in I : m.pend[i].age >= m.p.chords[ci].T, age |-> 0]]
+              m1 == [m EXCEPT !.pend = [i \in DOMAIN keep |-> keep[i].e]]
           IN IF a0 = 0 THEN m1 ELSE [m1 EXCEPT !.acts[a0].rem = S \ xr0, !.acts[a0].due = 0]
-     ELSE IF m.last.ci = ci /\ m.last.viaRel
-     THEN Fail(m, "C09 H1: chord action performed twice for one set of presses [a participant was released before the chord fired]")
-     ELSE IF m.last.ci = ci /\ m.last.late
-     THEN Fail(m, "C09 H1: chord action performed twice for one set of presses [the last participant arrived at the end of the window]")
-     ELSE Fail(m, "C09 H1: chord action performed without a fresh press of each of its keys")
+     ELSE Fail(m, "C09 H1: chord action performed without a fresh press of each of its keys (or twice for one set of presses)")
 
 Individual(m, kc, o) ==
   \* the layer delivers in arrival order: the oldest pending press of the key.  If that press was marked as possibly
@@ -248,9 +230,7 @@ ReleaseChord(m, ci) ==
        IN IF a.chk /\ ~first /\ a.rem # {}
           THEN Fail(m, "C09 H3: chord action released while a participant is still held")
           ELSE IF a.chk /\ first /\ a.rem = a.all
-          THEN IF a.frl
-               THEN Fail(m, "C09 H3: first-release chord action released before any participant was released [a key outside the chord was released while the chord's presses were pending]")
-               ELSE Fail(m, "C09 H3: first-release chord action released before any participant was released")
+          THEN Fail(m, "C09 H3: first-release chord action released before any participant was released")
           ELSE [m EXCEPT !.acts = DropAt(@, j)]
 
 RECURSIVE Scan(_, _)
@@ -292,8 +272,7 @@ MonTick(m, out, idle, cb) ==
               ELSE [m EXCEPT !.gst = "none", !.g = <<>>, !.el = 0, !.arr = FALSE, !.term = "none",
                              !.exp = exp, !.expDef = def # <<>>,
                              !.expLeft = IF exp = <<>> THEN 0 - 1 ELSE IF def # <<>> THEN 0 ELSE 1]
-        m2 == IF p.ver = 1 THEN m1
-              ELSE [m1 EXCEPT !.pend = [i \in DOMAIN @ |-> [@[i] EXCEPT !.age = OMin(@ + 1, MaxT(p) + 1)]]]
+        m2 == m1
         \* ---- 2. the outputs
         m3a == Scan(m2, out)
         \* ---- 2b. v2: while a chord's output key is down, a further activation of the same chord is invisible at the OS
@@ -335,7 +314,6 @@ MonTick(m, out, idle, cb) ==
                               !.pend = IF settledNow THEN <<>> ELSE @]
     IN IF m4.err # "" THEN m4
        ELSE [m4 EXCEPT !.lay = IF settledNow THEN (IF m.lheld THEN 1 ELSE 0) ELSE @,
-                       !.last = IF settledNow THEN NoLast ELSE [@ EXCEPT !.age = OMin(@ + 1, 2)],
                        !.expDef = IF m4.exp = <<>> THEN FALSE ELSE @,
                        !.gapIn = 0, !.lastIdle = idle, !.cbRun = IF p.ver = 1 \/ cb THEN OMin(@ + 1, 2) ELSE 0,
                        !.quiet = IF out = <<>> THEN OMin(m4.quiet + 1, p.red + 1) ELSE 0]
